@@ -309,6 +309,21 @@ def trace_job(oc, job, repo, seed, tier):
     with ThreadPoolExecutor(max_workers=job.get("par", 8)) as ex:
         vals = list(ex.map(val, raws))
     log("  validated %d files against %s in %.1fs" % (len(vals), job["spec"], time.time() - t0))
+    if job.get("drift_cfg"):
+        # tier B: the same traces against the design-level configuration; a rejection there while tier A accepts is
+        # MODEL-DRIFT (reported, exit 0), never a violation
+        def dval(item):
+            fseed, args, lines, res = item
+            if not res["accepted"]:
+                return None
+            return fseed, validate_lines(job["spec"], job["drift_cfg"], lines, "%s.%s.B.%d" % (oc.prop, job["harness"], fseed))
+        with ThreadPoolExecutor(max_workers=job.get("par", 8)) as ex:
+            for r in ex.map(dval, vals):
+                if r and not r[1]["accepted"]:
+                    oc.drift.append("%s seed %d: design-level expectation not met at event #%d %s (contract still satisfied)"
+                                    % (job["harness"], r[0], r[1]["reject_index"], " ".join(r[1]["rejects"][:3])))
+                elif r:
+                    oc.extra["tier_b_files_accepted"] = oc.extra.get("tier_b_files_accepted", 0) + 1
     for fseed, args, lines, res in vals:
         oc.files += 1
         known_markers(oc, job, fseed, args, lines, res)
